@@ -596,7 +596,10 @@ class Hist(Scenario):
             self.g("clean", "-q", "-fd")
         elif ch == "rm":
             if len(self.tracked()) > 1 and f in self.tracked():
+                pending = f in self.pending_initial_files()
                 self.g("rm", "-q", "-f", "--", f)
+                if pending and not self.profile["human_edit_on_pending_unreported"]:
+                    self.w.human_ckpt([f])   # finding D3': a person's unreported change of a file that carries INITIAL claims
                 self.write(f, [self.fresh("human", hostile=False) for _ in range(rng.choice([1, 3, 6]))])
         elif ch == "mv":
             if f in self.tracked():
